@@ -252,6 +252,22 @@ fn special_forms() -> Vec<String> {
             }
         }
     }
+    // blocks are rendered where they stand and again wherever self.<block>() is called: a name the
+    // block reads that is bound only by a construct around the block is a context lookup for the call
+    // made outside that construct
+    for (open, close) in [
+        ("{% with y = 1 %}", "{% endwith %}"), ("{% for y in [1] %}", "{% endfor %}"), ("{% set y = 1 %}", ""), ("{% if true %}{% set y = 1 %}", "{% endif %}"), ("{% filter upper %}{% set y = 1 %}", "{% endfilter %}"),
+        ("{% set cap %}{% set y = 1 %}", "{% endset %}"), ("{% for i in [1] %}{% set y = i %}", "{% endfor %}"), ("{% with %}{% set y = 1 %}", "{% endwith %}"), ("{% autoescape true %}{% with y = 2 %}", "{% endwith %}{% endautoescape %}"),
+    ] {
+        for body in ["{{ y }}", "{% if y %}1{% endif %}", "{% for q in y %}{% endfor %}"] {
+            let blk = format!("{}{{% block a %}}{}{{% endblock %}}{}", open, body, close);
+            out.push(format!("{}{{{{ self.a() }}}}", blk));
+            out.push(format!("{{{{ self.a() }}}}{}", blk));
+            out.push(format!("{}{{% macro mm() %}}{{{{ self.a() }}}}{{% endmacro %}}{{{{ mm() }}}}", blk));
+            out.push(format!("{}{{% for z in [1] %}}{{{{ self.a() }}}}{{% endfor %}}", blk));
+            out.push(format!("{}{{% with y = 5 %}}{{{{ self.a() }}}}{{% endwith %}}", blk));
+        }
+    }
     for (pre, post) in headers {
         for b in binders {
             out.push(format!("{}{}{}", pre, b, post));
